@@ -631,10 +631,24 @@ func cmdCheck(args []string) int {
 		nViol++
 		name := fmt.Sprintf("contract-not-applicable-%d", i+1)
 		path := filepath.Join(replayDirOf(*verifDir), *prop+"-"+name+".json")
-		rj, _ := json.MarshalIndent(map[string]interface{}{"property": *prop, "obligation": name, "kind": "contract clause that cannot be stated on this code",
-			"status": "undecided", "what": u, "replay": "no failing input: the obligations this clause generated on the unchanged tree (all discharged there) cannot be generated on this code"}, "", " ")
-		os.WriteFile(path, rj, 0o644)
-		fmt.Printf("VIOLATION property=%s replay=%s no-failing-input-found\n", *prop, path)
+		rec := map[string]interface{}{"property": *prop, "obligation": name, "kind": "contract clause that cannot be stated on this code",
+			"status": "undecided", "what": u, "replay": "no failing input: the obligations this clause generated on the unchanged tree (all discharged there) cannot be generated on this code"}
+		save := func() {
+			rj, _ := json.MarshalIndent(rec, "", " ")
+			os.WriteFile(path, rj, 0o644)
+		}
+		save()
+		// the clause names its function: the scenario registered for that function (if any) is run against the real
+		// code, so that a clause made unstatable by a change that also breaks the property is reported with the symptom
+		reproduced := false
+		if k := strings.Index(u, ": "); k > 0 && w.Funcs[u[:k]] != nil {
+			reproduced = scenarioReplay(w, *verifDir, *prop, &Obligation{Name: name, Fn: u[:k]}, rec, save)
+		}
+		if reproduced {
+			fmt.Printf("VIOLATION property=%s replay=%s\n", *prop, path)
+		} else {
+			fmt.Printf("VIOLATION property=%s replay=%s no-failing-input-found\n", *prop, path)
+		}
 		fmt.Printf("  failed obligation %s (undecided): %s\n", name, u)
 		if exit == 0 {
 			exit = 1
